@@ -15,7 +15,7 @@ def register(add):
     AN = 'AES block function abstract (rijndaelEncrypt/rijndaelDecrypt replaced): records key schedule, round count, buffers and the 16 input bytes of each call, returns ghost blocks'
     add('padEncrypt', ['C14', 'C08'], 'padEncrypt', sources=AS, headers=AH, conf='base', route='bounded', unwind=18, timeout=600,
         decls='cipherInstance *ci; keyInstance *ki; BYTE *in, *out; int n;', call='padEncrypt(ci, ki, in, n, out)',
-        replace=['rijndaelEncrypt/rijndaelEncrypt_a'], flags=['--object-bits', '9'], unwindset=['padEncrypt_wrapped_for_contract_checking.1:4'],
+        replace=['rijndaelEncrypt/rijndaelEncrypt_a'], flags=['--object-bits', '9', '--sat-solver', 'cadical'], unwindset=['padEncrypt_wrapped_for_contract_checking.1:4'],
         bound_note='CBC mode; every int length <= 40 bytes (0, 1, 2 complete blocks and every remainder; <= 0: nothing to do); output buffer of exactly the ciphertext length; loops unwound completely', note=AN)
     add('padDecrypt', ['C14', 'C08'], 'padDecrypt', sources=AS, headers=AH, conf='base', route='bounded', unwind=18, timeout=600,
         decls='cipherInstance *ci; keyInstance *ki; BYTE *in, *out; int n;', call='padDecrypt(ci, ki, in, n, out)',
